@@ -103,3 +103,8 @@ Definition proto_d (s : cstate) (closer : nat) (senders : list nat) : Prop :=
    0 = none recognised *)
 Definition sends_justified (sites : list (N * N * N)) : bool :=
   forallb (fun x => negb (N.eqb (snd x) 0)) sites.
+
+(* close sites: 1 inside sync.Once.Do, 2 flag tested and set under a mutex (both are the
+   section CFlagClose), 3 the maker closes its own channel once (protocol (b)), 5 reviewed; 0 none *)
+Definition closes_justified (sites : list (N * N * N)) : bool :=
+  forallb (fun x => negb (N.eqb (snd x) 0)) sites.
